@@ -172,6 +172,58 @@ def run_hypothesis(arm, ctx, spec, stats):
     return fails[-1] if fails else None
 
 
+def run_atheris(arm, ctx, spec, stats, finalize):
+    """Coverage-guided variant of the collect mode: libFuzzer (atheris) mutates the byte string that Hypothesis turns
+    into a case (`fuzz_one_input`), the arm's oracle runs inside the target, every case is recorded like in collect mode
+    and failures do not stop the campaign.  libFuzzer never returns, so the report is written from inside the target after
+    the requested number of executions."""
+    try:
+        import atheris
+    except Exception as e:  # not installed: this engine is optional, the Hypothesis arms decide the property
+        stats.info["fuzz_skipped_no_atheris"] += 1
+        return finalize()
+    from hypothesis import given
+    n = int(spec["n"])
+    with atheris.instrument_imports(include=list(getattr(arm, "fuzz_modules", ())), enable_loader_override=False):
+        for m in getattr(arm, "fuzz_modules", ()):
+            importlib.import_module(m)
+    count = [0]
+
+    @_settings(1, ())
+    @given(arm.strategy(ctx))
+    def test(case):
+        res = guarded_run(arm, case, ctx)
+        stats.add(case, res)
+
+    fuzz_one = test.hypothesis.fuzz_one_input
+
+    def done():
+        return stats.evaluations + sum(stats.excluded.values())
+
+    def target(data):
+        count[0] += 1
+        try:
+            fuzz_one(data)
+        except (KeyboardInterrupt, SystemExit):
+            raise
+        except HarnessError:
+            raise
+        finally:
+            # (byte strings that Hypothesis cannot turn into a case do not count; the campaign is bounded by cases)
+            if done() >= n or count[0] >= 200 * n:
+                stats.info["fuzz_executions"] += count[0]
+                stats.info["fuzz_cases"] += done()
+                finalize()
+    corpus = os.path.join(os.getcwd(), "corpus")
+    os.makedirs(corpus, exist_ok=True)
+    atheris.Setup([sys.argv[0], f"-seed={int(spec['seed']) % 2147483647 or 1}", "-max_len=8192", "-len_control=0", "-rss_limit_mb=4096",
+                   f"-runs={200 * n + 10}", "-verbosity=0", "-print_final_stats=0", corpus], target)
+    atheris.Fuzz()
+    stats.info["fuzz_executions"] += count[0]
+    stats.info["fuzz_cases"] += done()
+    finalize()
+
+
 def main(argv=None):
     argv = argv or sys.argv[1:]
     with open(argv[0]) as fh:
@@ -202,6 +254,18 @@ def main(argv=None):
                 if i % nsh != k:
                     continue
                 stats.add(case, guarded_run(arm, case, ctx))
+        elif mode == "fuzz":
+            def finalize():
+                report.update(stats.report())
+                report["wall_s"] = time.time() - t0
+                os.chdir(cwd0)
+                shutil.rmtree(scratch, ignore_errors=True)
+                with open(out + ".tmp", "w") as fh:
+                    json.dump(report, fh)
+                os.replace(out + ".tmp", out)
+                sys.stdout.flush()
+                os._exit(0)
+            run_atheris(arm, ctx, spec, stats, finalize)
         elif mode == "replay":
             results = []
             for case in spec["cases"]:
